@@ -101,7 +101,11 @@ struct Wd {
 }
 
 fn world() -> Option<Wd> {
-    let bc = BCfg { num_queues: 1, masks: vec![1], ..BCfg::default() };
+    world_cfg(false)
+}
+
+fn world_cfg(touch_in_update: bool) -> Option<Wd> {
+    let bc = BCfg { num_queues: 1, masks: vec![1], touch_in_update, ..BCfg::default() };
     let mut s: Sess<V> = Sess::new(bc);
     let mut fe = s.connect(1);
     let pf = s.be.cfg.protocol_features | spec::PF_REPLY_ACK;
@@ -230,7 +234,10 @@ fn log_sizes(cfg: &Cfg, rng: &mut Rng, case: &str) {
 }
 
 fn write_history(cfg: &Cfg, rng: &mut Rng, case: &str) {
-    let Some(mut w) = world() else { return };
+    // every other history the backend writes into each region from inside update_memory(): logging
+    // must already be in force for the regions of a new table when the backend is told about it
+    let touching = rng.chance(1, 2);
+    let Some(mut w) = world_cfg(touching) else { return };
     let lay = layout(rng, 4);
     let mut cur: Vec<usize> = (0..lay.regs.len()).collect();
     if w.fe.as_mut().unwrap().set_mem_table(&lay.regs.iter().map(|r| r.info()).collect::<Vec<_>>()).is_err() {
@@ -247,6 +254,7 @@ fn write_history(cfg: &Cfg, rng: &mut Rng, case: &str) {
         report::violation("C15:set_log_base:ample-log-rejected", jo! {"log_size" => log.size, "needed" => needed}, cfg.replay(case));
         return;
     }
+    w.s.be.st.lock().unwrap().touched_in_update.clear();
     // ring for used-ring updates in region 0
     let r0 = &lay.regs[0];
     let ring_ok = r0.size >= 3 * PAGE && {
@@ -313,6 +321,11 @@ fn write_history(cfg: &Cfg, rng: &mut Rng, case: &str) {
                     }
                 }
             }
+        }
+        let touched: Vec<u64> = std::mem::take(&mut w.s.be.st.lock().unwrap().touched_in_update);
+        for gpa in touched {
+            log.mark(gpa, 1);
+            trace.push(format!("write_in_update_memory(gpa={gpa:#x})"));
         }
         let Some(mem) = w.mem() else { return };
         let regs: Vec<&Reg> = cur.iter().map(|i| if *i >= 100 { &extra[*i - 100] } else { &lay.regs[*i] }).collect();
